@@ -82,7 +82,7 @@ pub fn worker_main(fam: &dyn Family, tier: Tier, master: u64, start: u64, stride
                 let _ = o.flush();
                 crate::guard::case_begin();
             }
-            let res = std::panic::catch_unwind(std::panic::AssertUnwindSafe(|| fam.judge(scn, &mut stats)));
+            let res = crate::family::judge_on_fresh_thread(fam, scn, &mut stats);
             if info.crash_isolated {
                 crate::guard::case_end();
             }
@@ -93,18 +93,12 @@ pub fn worker_main(fam: &dyn Family, tier: Tier, master: u64, start: u64, stride
                         let _ = writeln!(o, "{}", serde_json::to_string(&Msg::Viol { v }).unwrap());
                     }
                 }
-                Err(p) => {
-                    let msg = p
-                        .downcast_ref::<String>()
-                        .cloned()
-                        .or_else(|| p.downcast_ref::<&str>().map(|s| s.to_string()))
-                        .unwrap_or_else(|| "panic".into());
-                    let loc = crate::take_panic_location();
+                Err(msg) => {
                     let mut o = out.lock();
                     let _ = writeln!(
                         o,
                         "{}",
-                        serde_json::to_string(&Msg::Harness { msg: format!("oracle/harness panic at base {i} sub {k}: {msg} @ {loc}") }).unwrap()
+                        serde_json::to_string(&Msg::Harness { msg: format!("oracle/harness panic at base {i} sub {k}: {msg}") }).unwrap()
                     );
                 }
             }
@@ -430,7 +424,13 @@ pub fn replay(path: &str) -> i32 {
         };
     }
     let mut stats = Stats::default();
-    let vs = fam.judge(&rf.scenario, &mut stats);
+    let vs = match crate::family::judge_on_fresh_thread(fam, &rf.scenario, &mut stats) {
+        Ok(v) => v,
+        Err(e) => {
+            eprintln!("harness panic during replay: {e}");
+            return 2;
+        }
+    };
     for v in &vs {
         if v.clause == rf.clause {
             println!("REPRODUCED property={} clause={} log_hash={:016x}\n  {}", rf.property, v.clause, v.log_hash, v.detail);
@@ -467,7 +467,13 @@ pub fn exec_one_main() -> i32 {
         crate::guard::case_begin();
     }
     let mut stats = Stats::default();
-    let vs = fam.judge(&scn, &mut stats);
+    let vs = match crate::family::judge_on_fresh_thread(fam, &scn, &mut stats) {
+        Ok(v) => v,
+        Err(e) => {
+            eprintln!("harness panic: {e}");
+            return 2;
+        }
+    };
     let out: Vec<(String, String)> = vs.into_iter().map(|v| (v.clause, v.detail)).collect();
     println!("{}", serde_json::to_string(&out).unwrap());
     0
@@ -526,7 +532,7 @@ pub fn hashes_main(fam: &dyn Family, master: u64, start: u64, count: u64) -> i32
         for (k, scn) in scns.iter().enumerate() {
             let mut st = Stats::default();
             st.runs = 0;
-            let vs = fam.judge(scn, &mut st);
+            let vs = crate::family::judge_on_fresh_thread(fam, scn, &mut st).unwrap_or_default();
             let mut f = crate::rng::Fnv::new();
             for h in st.interleavings.iter() {
                 f.write_u64(*h);
